@@ -134,7 +134,7 @@ func c20Session(c *Ctx, logger *rig.CapLogger, pass, kind string, capn, useSasl,
 	disc := make(chan struct{}, 4)
 	s.Conn.HandleFunc(client.DISCONNECTED, func(_ *client.Conn, l *client.Line) { disc <- struct{}{} })
 	cycles := 1
-	if kind == "reconnect" {
+	if kind == "reconnect" || kind == "wdrop" {
 		cycles = 2
 	}
 	for cy := 0; cy < cycles; cy++ {
@@ -181,10 +181,30 @@ func c20Session(c *Ctx, logger *rig.CapLogger, pass, kind string, capn, useSasl,
 				c.R.Inconcl("registration not seen")
 				return nil, false, false
 			}
+			if kind == "wdrop" && cy == 0 {
+				// the server welcomes the client and drops the link at once: the teardown races the welcome's handlers
+				mc.SendBytes([]byte(":srv 001 me :Welcome me!ident@host\r\n"))
+				mc.SendEOF()
+				if !waitCh(chanOf(disc)) {
+					c.R.Inconcl("no DISCONNECTED after welcome and drop")
+					return nil, false, false
+				}
+				for _, l := range mc.Lines() {
+					if strings.HasPrefix(l, "PASS ") {
+						passOnWire = true
+					}
+				}
+				continue
+			}
 			if capn {
 				mc.SendLine(":srv CAP * LS :sasl multi-prefix")
 			}
-			mc.SendLine(":srv 001 me :Welcome me!ident@host")
+			if failAt%2 == 0 {
+				// the server registers the client under another nick than it asked for
+				mc.SendLine(":srv 001 given :Welcome given!ident@host")
+			} else {
+				mc.SendLine(":srv 001 me :Welcome me!ident@host")
+			}
 			mc.SendLine(":srv 433 me other :in use")
 			mc.SendLine(":x!y@z PRIVMSG me :\x01VERSION\x01")
 			mc.SendLine("garbage")
@@ -306,7 +326,7 @@ func runC20(c *Ctx) {
 	total := c.Pick(4000, 100000)
 	per := total / parts
 	logger := rig.NewCapLogger(nil)
-	kinds := []string{"ok", "ok", "refused", "writeerr", "eof", "reconnect", "scrub", "stallclose", "badcfg", "connectto"}
+	kinds := []string{"ok", "ok", "refused", "writeerr", "eof", "reconnect", "scrub", "stallclose", "badcfg", "connectto", "wdrop"}
 	for i := 0; i < per; i++ {
 		idx := part*per + i
 		if !c.Want("pw", idx) {
